@@ -156,6 +156,8 @@ class SchemaLoaderXML(SchemaLoader):
         else:
             node_name = self._get_element_tag_value(node_element)
         attribute_desc = self._get_element_tag_value(node_element, xml_constants.DESCRIPTION_ELEMENT)
+        # The mediawiki and tsv readers drop blanks around a description, so it cannot survive there.
+        attribute_desc = attribute_desc.strip()
 
         tag_entry = self._schema._create_tag_entry(node_name, key_class)
 
